@@ -120,6 +120,12 @@ func propC09(g *G, n int) {
 			if g.chance(0.1) {
 				e2 = g.pick(50000) - 25000
 			}
+			if g.chance(0.08) { // values of ordinary size held with a very high precision: 2^k + small, scaled back by 2^-k
+				k := []int{400, 3000, 20300, 20412, 20413, 20500, 21000, 24000}[g.pick(8)] + g.pick(40)
+				m = new(big.Int).Lsh(big.NewInt(1), uint(k))
+				m.Add(m, big.NewInt(int64(1+g.pick(1000))))
+				e2 = -k + g.pick(21) - 10
+			}
 			apiCall(0, "api.FromFloat", []string{m.String(), fmt.Sprint(e2), sBool(g.chance(0.5))})
 			if g.chance(0.05) {
 				apiCall(0, "api.FromFloat", []string{[]string{"+Inf", "-Inf"}[g.pick(2)], "0", "F"})
